@@ -17,6 +17,12 @@ R10d Stop can only cancel what it can see: cancel_commands walks the *executing 
      is dropped while its instance stays registered survives Stop and Restart and swallows the next request of that name;
      and _finalize_command reaches _executing_command_done on every path (request and instance leave together).
 Decides the clean-up structure; run-log completeness at every stop point is not decided.
+R10e no start window between the cancel and the stop: Stop and Restart are generators that span several ticks; requests that are
+     executed *after* them in the tick of their first segment (a user request made in the same inter-tick gap, one tick
+     earlier in the queue) start their commands after the cancel. In StopEngineCommand._run and
+     RestartEngineCommand._run a cancel_all_commands(...) call must therefore lie in the same generator segment as
+     (and before) _stop_interpreter() - a cancel that is separated from the stop by a `yield` leaves a one-tick window in
+     which a command can start that nothing cancels or finalizes any more.
 """
 from __future__ import annotations
 
@@ -224,3 +230,35 @@ def run(ctx) -> None:
         ctx.ok("R10d", inst)
     else:
         ctx.fail("R10d", fc, fc.node, inst, "a path through _finalize_command does not mark the request done", p)
+
+    # ---- R10e
+    ctx.rule("R10e", "commands are cancelled in the same generator segment in which the run is stopped")
+    for cn in ("StopEngineCommand", "RestartEngineCommand"):
+        f = impl.classes[cn].methods["_run"]
+        g = cfg_of(f)
+        stops = [n for n in g.nodes if node_calls(n, "_stop_interpreter")]
+        if not stops:
+            raise AnchorError(f"{cn}._run: _stop_interpreter() not found")
+
+        def is_yield(n):
+            return n.kind == "stmt" and isinstance(n.ast, ast.Expr) and isinstance(n.ast.value, (ast.Yield, ast.YieldFrom))
+        for st in stops:
+            inst = f"{cn}._run: cancel_all_commands in the segment that calls _stop_interpreter()"
+            # walk backwards from the stop to the segment start (a yield or the entry): is there a path from the segment start to
+            # the stop that passes no cancel_all_commands?
+            seg_starts = [n.id for n in g.nodes if is_yield(n)] + [g.entry.id]
+            bad = None
+            for sid in seg_starts:
+                # paths sid -> st that contain no further yield and no cancel
+                p = g.search([sid], lambda n, st=st: n.id == st.id,
+                             blocked=lambda n, sid=sid: (n.id != sid and is_yield(n)) or node_calls(n, "cancel_all_commands"), follow_exc=False)
+                if p is not None:
+                    bad = p
+                    break
+            if bad is None:
+                ctx.ok("R10e", inst)
+            else:
+                ctx.fail("R10e", f, st.ast, inst, "the run is stopped in a later tick than the one in which the other commands were "
+                         "cancelled: a request executed after this command in the tick of the cancel (e.g. a user command and a "
+                         "user Stop made in the same tick gap, executed newest first) starts its UOD command after the cancel; "
+                         "nothing cancels or finalizes it, and its instance is still registered when Stop/Restart completes", bad)
